@@ -155,6 +155,7 @@ func runC36(c *Ctx) error {
 		var toks, outs []string
 		nodeOf := map[int]int{} // addr -> node index
 		lastHint := map[int]string{}
+		hintsSeen := map[int]int{} // number of hint changes on the address so far
 		nsteps := 3 + c.Intn(10)
 		for st := 0; st < nsteps; st++ {
 			ai := c.Intn(len(addrs))
@@ -191,13 +192,17 @@ func runC36(c *Ctx) error {
 			if res.RulesetType != wantT || burst != fmt.Sprint(wantB) {
 				hintNow := fmt.Sprintf("%s/%d", cid, nodeIdx(nodeOf, ai))
 				cls := "C36:wrong-rule"
-				if prev, ok := lastHint[ai]; ok && prev != hintNow {
+				// the cached limiter may stem from any earlier request of this address made under another hint
+				if prev, ok := lastHint[ai]; ok && (prev != hintNow || hintsSeen[ai] > 1) && c36shortCircuitType(res.RulesetType, c36isMember(rs.members, nodeOf, ai)) {
 					cls = "C36:cached-limiter-hides-higher-precedence-rule"
 				}
 				c.Violation(cls, fmt.Sprintf("rules %s; history %s: served by %s/%s, precedence says %s/%d", strings.Join(rt, " "), strings.Join(toks, " "), res.RulesetType, burst, wantT, wantB),
 					map[string]interface{}{"rules": rt, "history": toks})
 			}
-			lastHint[ai] = fmt.Sprintf("%s/%d", cid, nodeIdx(nodeOf, ai))
+			if hn := fmt.Sprintf("%s/%d", cid, nodeIdx(nodeOf, ai)); lastHint[ai] != hn {
+				hintsSeen[ai]++
+				lastHint[ai] = hn
+			}
 		}
 		c.Case("seq "+strings.Join(rt, " ")+" ; "+strings.Join(toks, " "), strings.Join(outs, " "))
 		if len(toks) >= 4 {
@@ -235,7 +240,7 @@ func runC36(c *Ctx) error {
 			c.Violation("C36:bucket-bound-exceeded", fmt.Sprintf("burst %d, %d tokens per %s: %d allowed in %s (bound %.2f)", burst, burst, per, allowed, window, bound), map[string]interface{}{"burst": burst, "per": per.String()})
 		}
 	}
-	return nil
+	return c36dynamic(c)
 }
 
 func nodeIdx(m map[int]int, ai int) int {
